@@ -432,6 +432,16 @@ func propC06(rt *rapid.T) {
 				ec.Warm, ec.WarmNames, ec.WarmValues = ec.Expr, ec.Names, valueTwin(rt, ec.Values, o)
 				st.Class("value-twin-evaluated-first")
 			}
+		case 7, 13:
+			if len(ec.Names) > 0 {
+				// the same text first with every #name bound to another attribute
+				other := map[string]string{}
+				for _, k := range sortedKeys(ec.Names) {
+					other[k] = rapid.SampledFrom([]string{"s", "s2", "n", "n2", "b", "t", "z", "l", "m", "ss", "ns", "zz", "k"}).Filter(func(a string) bool { return a != ec.Names[k] }).Draw(rt, "reboundName")
+				}
+				ec.Warm, ec.WarmNames, ec.WarmValues = ec.Expr, other, ec.Values
+				st.Class("name-twin-evaluated-first")
+			}
 		}
 		pending("C06", "c06", ec)
 		info := &c06Info{}
